@@ -44,6 +44,18 @@ type Scenario struct {
 	Stops      []int     `json:"stops"`
 	MemCap     bool      `json:"memCap"`
 	Web        []WebCase `json:"web"`
+	// spec/Web.tla: a behaviour of the HTTP API's cache, replayed with real time
+	Life    []LifeStep        `json:"life"`
+	LifeSQL map[string]string `json:"lifeSQL"`
+	TickMs  int               `json:"tickMs"`
+	TTLMs   int               `json:"ttlMs"`
+}
+
+type LifeStep struct {
+	A       string `json:"a"`
+	Q       string `json:"q"`
+	NoCache bool   `json:"nocache"`
+	Perm    int    `json:"perm"`
 }
 
 func emit(out *bufio.Writer, line map[string]interface{}) {
@@ -153,6 +165,10 @@ func run(sc *Scenario, scratch string, out *bufio.Writer) {
 		}
 		// the virtual clock restarts at zero on every open
 		n.DB.VerifAdvanceClock(zv.Epoch.Add(time.Duration(sc.Periods) * time.Second))
+	}
+	if len(sc.Life) > 0 {
+		runLife(sc, n, dir, out, insert, settle, &total)
+		return
 	}
 	for _, sql := range sc.Queries {
 		full, _, err := n.RawQueryOpts(sql, true, zv.QueryOpts{StallAtRow: -1})
@@ -273,4 +289,89 @@ func main() {
 		out.Flush()
 	}
 	_ = zenodb.ErrOutOfMemory
+}
+
+// runLife replays a behaviour of spec/Web.tla on the real handler: requests
+// through /immediate (executed at once), cached entries by permalink, ticks as
+// real time (the cache TTL is a little more than a whole number of ticks and all
+// activity of a tick happens right after its beginning), inserts as new keys
+// that are flushed (the HTTP API reads flushed data only).
+func runLife(sc *Scenario, n *zv.Node, dir string, out *bufio.Writer, insert func(from, to int) error, settle func(want int) error, total *int) {
+	n.DB.FlushAll()
+	router := mux.NewRouter()
+	stop, err := web.Configure(n.DB, router, &web.Opts{CacheDir: filepath.Join(dir, "lifecache"), CacheTTL: time.Duration(sc.TTLMs) * time.Millisecond})
+	if err != nil {
+		emit(out, map[string]interface{}{"a": "HarnessError", "scn": sc.Scn, "err": err.Error()})
+		return
+	}
+	defer stop()
+	ts := httptest.NewServer(router)
+	defer ts.Close()
+	perms := map[int]string{}
+	keys := sc.Keys
+	t0 := time.Now()
+	ticks := 0
+	get := func(path string, nocache bool) (int, int, string) {
+		req, _ := http.NewRequest("GET", ts.URL+path, nil)
+		if nocache {
+			req.Header.Set("Cache-control", "no-cache")
+		}
+		resp, err := http.DefaultClient.Do(req)
+		if err != nil {
+			return 0, -1, err.Error()
+		}
+		defer resp.Body.Close()
+		body, _ := ioutil.ReadAll(resp.Body)
+		if resp.StatusCode != 200 {
+			return resp.StatusCode, -1, ""
+		}
+		var qr struct {
+			Permalink string
+			Rows      []json.RawMessage
+		}
+		if json.Unmarshal(body, &qr) != nil {
+			return 200, -1, ""
+		}
+		return 200, len(qr.Rows), qr.Permalink
+	}
+	for i, st := range sc.Life {
+		line := map[string]interface{}{"a": "Life", "i": i, "step": st.A, "atMs": time.Since(t0) / time.Millisecond, "tick": ticks}
+		switch st.A {
+		case "Tick":
+			ticks++
+			if d := time.Until(t0.Add(time.Duration(ticks*sc.TickMs) * time.Millisecond)); d > 0 {
+				time.Sleep(d)
+			}
+		case "Insert":
+			if err := insert(keys, keys+1); err != nil {
+				line["err"] = err.Error()
+			}
+			keys++
+			if err := settle(*total); err != nil {
+				line["err"] = err.Error()
+			}
+			n.DB.FlushAll()
+		case "Request":
+			status, rows, perm := get("/immediate?"+url.QueryEscape(sc.LifeSQL[st.Q]), st.NoCache)
+			line["status"], line["rows"], line["permalink"], line["perm"] = status, rows, perm, st.Perm
+			if perm != "" {
+				if _, ok := perms[st.Perm]; !ok {
+					perms[st.Perm] = perm
+				}
+				line["expectedPermalink"] = perms[st.Perm]
+			}
+		case "Cached":
+			p, ok := perms[st.Perm]
+			if !ok {
+				line["skipped"] = "permalink of an error entry is not disclosed"
+			} else {
+				status, rows, _ := get("/cached/"+p, false)
+				line["status"], line["rows"], line["perm"] = status, rows, st.Perm
+			}
+		case "Exec":
+			// part of the /immediate request before it
+		}
+		emit(out, line)
+	}
+	emit(out, map[string]interface{}{"a": "LifeEnd", "ms": time.Since(t0) / time.Millisecond})
 }
